@@ -263,6 +263,9 @@ impl Property for C07 {
     fn components(&self) -> serde_json::Value {
         crate::components_mac()
     }
+    fn coverage_extra(&self, tier: Tier, runs: u64) -> serde_json::Value {
+        serde_json::json!({ "bounded_depth_enumeration": super::enum_coverage(tier, runs) })
+    }
     fn budget(&self, tier: Tier) -> u64 {
         match tier {
             Tier::Quick => 1_000_000,
@@ -275,6 +278,16 @@ impl Property for C07 {
         if let Some(mut c) = super::cross_generate("C07", &["C04", "C05", "C08", "C09", "C10", "C11", "C12"], seed, run, tier, avoid) {
             // radio faults are addressed by call position, and a removed frame shifts the positions: the twin
             // comparison is only meaningful without them
+            for op in c.ops.iter_mut() {
+                match op {
+                    Op::Join(t) | Op::Send { txn: t, .. } => t.fault = None,
+                    Op::Listen { fault, .. } => *fault = None,
+                    _ => {}
+                }
+            }
+            return c;
+        }
+        if let Some(mut c) = super::enum_generate("C07", run, tier) {
             for op in c.ops.iter_mut() {
                 match op {
                     Op::Join(t) | Op::Send { txn: t, .. } => t.fault = None,
